@@ -212,8 +212,8 @@ func RandomMap(rng *rand.Rand, thorough bool, k int) BigMap {
 		m.Fmt = 12
 		m.Class = "runs12"
 		n := 1 + rng.Intn(65536/scale)
-		if thorough && k%9 == 8 {
-			n = 65536
+		if k%9 == 8 {
+			n = 65536 - (k/9)%2 // the entry limit of the property's quantifier and the last count below it, in every tier
 		}
 		c := rng.Intn(64)
 		if rng.Intn(3) == 0 {
